@@ -101,6 +101,10 @@ def run(tier):
         else:
             print("\n".join(l for l in r.out.splitlines() if not re.match(r"^(State \d+:|i = \d+|\s*$)", l))[-3000:])
             raise MachineryError("TLC did not complete on CompatCheck")
+    # the same theorems for EVERY id and bond order: the proof system on spec/proofs/CompatProofs.tla
+    n_proved, _, t_proofs = common.run_tlapm("CompatProofs")
+    if n_proved < 4:
+        raise MachineryError(f"CompatProofs: {n_proved} obligations, expected at least 4")
     stats = {}
     for rec in r.printed:
         if "universe" in rec:
@@ -132,6 +136,8 @@ def run(tier):
                     {"d": keys[-1], "compatible_with_impl": rel["token_token"][keys[-1]]},
                     {"d": keys[300], "compatible_with_impl": rel["direct_token"][keys[300]]}],
         "model_theorems": ["Symmetric", "EmptyBondsNothing", "WeightIndependent", "IffStatement", "NonVacuous"],
+        "unbounded_proofs": {"module": "spec/proofs/CompatProofs.tla", "tool": "tlapm (TLAPS)", "obligations_proved": n_proved, "seconds": round(t_proofs, 2),
+                             "theorems": ["Symmetric", "EmptyBondsNothing", "IffStatement", "WeightIndependent"], "domain": "id in Int, ord in Nat"},
     }
     v.assumptions = [
         "the empty descriptor [] cannot carry id or weight (the constructor rejects '[1]'), so it appears with the five prefixes only: "
